@@ -24,6 +24,7 @@ type Obligation struct {
 	Pos    string
 	Text   string
 	Local  []string // assertions added inside the push scope
+	Parts  []*Obligation // merged postconditions: the individual clauses (checked one by one when the conjunction is not proved)
 	Expect string   // "unsat" normally; "sat" for covers
 	Params []string // names of SMT constants to read back from a model
 	Block  int      // basic block the obligation is checked in (-1: needs the whole function)
@@ -570,8 +571,17 @@ func (fg *FuncGen) loopEnv(li *loopInfo, st State, phiVals map[*ssa.Phi]string) 
 			}
 		}
 		if strings.HasPrefix(name, "it_") { // iterator ghost state: it_n / it_seen of the n-th range in the loop
+			// the iterator of this loop: the range whose next() is in the loop header
+			var mine ssa.Value
+			for _, in := range li.header.Instrs {
+				if nx, ok := in.(*ssa.Next); ok {
+					mine = nx.Iter
+				}
+			}
 			for v, it := range fg.iterState {
-				_ = v
+				if mine != nil && v != mine {
+					continue
+				}
 				if name == "it_n" {
 					return TTerm{S: fg.famIn(st, it.nFam), Sort: "Int"}, true
 				}
@@ -1233,8 +1243,9 @@ func (fg *FuncGen) finishReturns() {
 		if merge {
 			// many returns x many clauses: one obligation per return (conjunction of all postconditions)
 			var parts []string
+			var partObls []*Obligation
 			tagset := map[string]bool{}
-			for _, en := range fg.c.Ensures {
+			for i, en := range fg.c.Ensures {
 				if en.Defines {
 					continue
 				}
@@ -1246,6 +1257,12 @@ func (fg *FuncGen) finishReturns() {
 				for _, tg := range pick(en.Tags, fg.c.Tags) {
 					tagset[tg] = true
 				}
+				detail := fmt.Sprintf("post.%d", i+1)
+				if en.Label != "" {
+					detail = "post." + en.Label
+				}
+				partObls = append(partObls, &Obligation{Name: fmt.Sprintf("%s/%s@ret%d", shortKey(fg.key), detail, k+1), Kind: "post", Func: fg.key, Tags: pick(en.Tags, fg.c.Tags),
+					Guard: fg.curReach, Goal: t.S, Text: en.Text, Expect: "unsat", Params: fg.paramConsts, Block: fg.segIdx, Via: -1})
 			}
 			var tags []string
 			for tg := range tagset {
@@ -1256,6 +1273,10 @@ func (fg *FuncGen) finishReturns() {
 			if in := b.Instrs[len(b.Instrs)-1]; in.Pos().IsValid() {
 				o.Pos = fg.g.pos(in.Pos())
 			}
+			for _, po := range partObls {
+				po.Pos = o.Pos
+			}
+			o.Parts = partObls
 			continue
 		}
 		for i, en := range fg.c.Ensures {
